@@ -153,7 +153,8 @@ impl Scenario for SerialStdout {
         let in_ram = !binary && rng.chance(1, 3);
         case.set("in_ram", in_ram as i64);
         case.set("block", rng.below(2) as i64);
-        let n = rng.range(2, if thorough { 60 } else { 24 }) as usize;
+        let small_arena = !binary && rng.chance(1, 4);
+        let n = if small_arena { rng.range(30, 90) as usize } else { rng.range(2, if thorough { 60 } else { 24 }) as usize };
         let code = gen_code(rng, !in_ram, n);
         case.blobs.insert(patch_key(CODE_AT as usize), code);
         // CALL target / RST 28 vector: restore SP, continue at HL
@@ -161,8 +162,8 @@ impl Scenario for SerialStdout {
         case.blobs.insert(patch_key(0x28), vec![0x31, 0xf0, 0xdf, 0xe9]);
         // entry: JP CODE_AT (the header's entry point jumps to 0x0150)
         case.blobs.insert(patch_key(0x150), vec![0x31, 0xf0, 0xdf, 0xc3, CODE_AT as u8, (CODE_AT >> 8) as u8]);
-        if rng.chance(1, 4) {
-            case.set("arena", rng.pick(&[0x1000i64, 0x2000, 0x4000]));
+        if small_arena {
+            case.set("arena", rng.pick(&[0x1000i64, 0x1000, 0x2000]));
         }
         if binary {
             case.set("updates", rng.range(20, 600));
@@ -215,7 +216,9 @@ impl Scenario for SerialStdout {
         'ops: for (opi, op) in case.ops.iter().enumerate() {
             match op.k {
                 "f" => {
+                    crate::machine::set_arena_size(if arena > 0 { (arena as usize).max(0x1000) } else { 0 });
                     reps[0].flush_cache();
+                    crate::machine::set_arena_size(0);
                     ctx.cov.hit("fault.flush");
                 }
                 "s" => {
@@ -225,8 +228,12 @@ impl Scenario for SerialStdout {
                             if i == 0 && arena > 0 {
                                 crate::machine::set_arena_size((arena as usize).max(0x1000));
                             }
+                            let entries_before = if i == 0 && arena > 0 { m.cache_entries().len() } else { 0 };
                             m.trace_start();
                             let r = step(m.as_mut(), block, i == 0);
+                            if i == 0 && arena > 0 && m.cache_entries().len() < entries_before {
+                                ctx.cov.hit("fault.arena_full_cache_emptied");
+                            }
                             let trace = m.trace_take();
                             crate::machine::set_arena_size(0);
                             let got = crate::capture::take();
